@@ -73,6 +73,9 @@ def spectral_radius(model, data):
 
 def mon_timestep(args, kwargs, result, tok):
     ctx = CTX
+    if not probes.take("timestep"):
+        ctx.skip("timestep:not-sampled")
+        return
     model, data, dx, cfl = args[0], args[1], args[2], args[3]
     eqn = model.equation
     dt = np.atleast_1d(np.asarray(result, float))
@@ -114,6 +117,8 @@ def mon_timestep(args, kwargs, result, tok):
 def mon_calc_timestep(args, kwargs, result, tok):
     """the discretisation passes the right cell size: face spacing in 1D, dx*dy/(dx+dy) in 2D (computed here from the geometry)"""
     ctx = CTX
+    if not probes.take("calc_timestep"):
+        return
     disc, f, cfl = args[0], args[1], args[2]
     dt = np.atleast_1d(np.asarray(result, float))
     m = disc.mesh
@@ -143,6 +148,10 @@ def setup(ctx):
     ctx.on_begin.append(solvelog.reset)
     ctx.require("timestep:convection", "timestep:burgers", "timestep:shallowwater", "timestep:euler1d", "timestep:nozzle", "timestep:euler2d",
                 "calc_timestep:1d", "calc_timestep:2d", "solve:global", "solve:local")
+
+
+def traffic_flush(ctx):
+    del solvelog.LOGS[:]
 
 
 def teardown(ctx):
